@@ -620,7 +620,7 @@ def observe(case, base, port):
 
         def obs_contains():
             res["contains"] = []
-            for ft in range(NFEAT):
+            for ft in range(nobs):
                 try:
                     res["contains"].append(1 if "userdef%d" % ft in ds else 0)
                 except CaseTimeout:
@@ -635,7 +635,7 @@ def observe(case, base, port):
             import numpy as np
             res["source"] = []
             res["events"] = []
-            for ft in range(NFEAT):
+            for ft in range(nobs):
                 ev = None
                 try:
                     arr = np.array(ds["userdef%d" % ft][:], dtype=float)
@@ -675,6 +675,10 @@ def observe(case, base, port):
                     ev = None
                 res["events"].append(ev)
 
+        # (a dataset with a mapped basin whose basinmap feature is missing
+        # needs about a second of CPU per access: two features are enough)
+        nobs = 2 if case.get("exotic") == "no-basinmap" else NFEAT
+
         # the order of the accesses must not matter (lazy construction,
         # caches, removal of unavailable basins)
         proto = case.get("proto", 0)
@@ -684,6 +688,9 @@ def observe(case, base, port):
                  3: (obs_read, obs_listing, obs_contains)}[proto]
         for fn in order:
             fn()
+        res["contains"] += [0] * (NFEAT - len(res["contains"]))
+        res["source"] += [-1] * (NFEAT - len(res["source"]))
+        res["events"] += [None] * (NFEAT - len(res["events"]))
         # force every available basin open, at any depth
         try:
             res["followed"] = _force(ds, 0)
@@ -1666,22 +1673,6 @@ def run(run):
                  ("hdf5", "random"), ("http", "random")]
     for n in (1, 2):
         cases += graph_cases(n, run.rng, quickvars)
-    if run.thorough:
-        cases += graph_cases(3, run.rng, quickvars[:4] + quickvars[5:])
-        pairs = [(i, j) for i in range(4) for j in range(4)]
-        dense = []
-        for mask in range(1 << 16):
-            edges = [p for k, p in enumerate(pairs) if mask >> k & 1]
-            if len(edges) > 6:
-                dense.append(edges)
-                continue
-            cases.append(graph_case(4, edges, (
-                run.rng.choice(["hdf5", "hdf5", "http"]),
-                run.rng.choice(["equal", "odd-one", "random"])), run.rng))
-        for edges in run.rng.sample(dense, 1500):
-            cases.append(graph_case(4, edges, (
-                run.rng.choice(["hdf5", "hdf5", "http"]),
-                run.rng.choice(["equal", "odd-one"])), run.rng))
     for _ in range(300 if run.thorough else 24):
         c = gen_case(run.rng, max_files=4)
         if c["root"]["fmt"] not in ("hdf5", "http"):
@@ -1689,8 +1680,8 @@ def run(run):
             for f in c["files"]:
                 f.pop("dcor", None)
         # (the first kind costs about 1 s per access of the dataset)
-        c["exotic"] = run.rng.choice(["no-basinmap"] + 3 * ["internal-same"]
-                                     + 3 * ["no-basins"])
+        c["exotic"] = run.rng.choice(["no-basinmap"] + 4 * ["internal-same"]
+                                     + 4 * ["no-basins"])
         if c["exotic"] == "no-basins":
             c["root"]["fmt"] = "hdf5"
         if c["exotic"] == "no-basinmap":
@@ -1712,6 +1703,23 @@ def run(run):
     nrand = 4000 if run.thorough else 330
     for _ in range(nrand):
         cases.append(gen_case(run.rng))
+    # the exhaustive sweeps last: they are what a used-up time budget cuts
+    if run.thorough:
+        cases += graph_cases(3, run.rng, quickvars[:4] + quickvars[5:])
+        pairs = [(i, j) for i in range(4) for j in range(4)]
+        dense = []
+        for mask in range(1 << 16):
+            edges = [p for k, p in enumerate(pairs) if mask >> k & 1]
+            if len(edges) > 6:
+                dense.append(edges)
+                continue
+            cases.append(graph_case(4, edges, (
+                run.rng.choice(["hdf5", "hdf5", "http"]),
+                run.rng.choice(["equal", "odd-one", "random"])), run.rng))
+        for edges in run.rng.sample(dense, 1500):
+            cases.append(graph_case(4, edges, (
+                run.rng.choice(["hdf5", "hdf5", "http"]),
+                run.rng.choice(["equal", "odd-one"])), run.rng))
     check_cases(run, cases)
 
 
